@@ -241,9 +241,10 @@ def _calc_target_coords(cache, name, ant, projection, coordsys):
         lon = cache.get(ant_group + 'az')
         lat = cache.get(ant_group + 'el')
     # Fix over-the-top elevations (projections can only handle elevations in range +- 90 degrees)
+    # (on copies, as the cache hands out its own arrays for the pointing sensors)
     over_the_top = (lat > np.pi / 2.0) & (lat < np.pi)
-    lon[over_the_top] += np.pi
-    lat[over_the_top] = np.pi - lat[over_the_top]
+    lon = np.where(over_the_top, lon + np.pi, lon)
+    lat = np.where(over_the_top, np.pi - lat, lat)
     x = np.empty(len(cache.timestamps))
     y = np.empty(len(cache.timestamps))
     targets = cache.get('Observation/target')
